@@ -125,22 +125,22 @@ type Op struct {
 
 // Script is one generated RPC program.
 type Script struct {
-	Kind         Kind              `json:"kind"`
-	ReqMD        metadata.MD       `json:"req_md,omitempty"`
-	UnaryReq     *tpb.Message      `json:"-"`
-	Sender       []Op              `json:"sender,omitempty"`   // client ops, goroutine 1 (for unary: ignored)
-	Receiver     []Op              `json:"receiver,omitempty"` // client ops, goroutine 2 (optional)
-	Handler      []Op              `json:"handler,omitempty"`
-	Resp         *tpb.Message      `json:"-"` // unary response (nil allowed)
-	Ret          Ret               `json:"ret"`
-	NHdrOpt      int               `json:"n_header_opts,omitempty"`
-	NTrlOpt      int               `json:"n_trailer_opts,omitempty"`
-	PeerOpt      bool              `json:"peer_opt,omitempty"`
+	Kind     Kind         `json:"kind"`
+	ReqMD    metadata.MD  `json:"req_md,omitempty"`
+	UnaryReq *tpb.Message `json:"-"`
+	Sender   []Op         `json:"sender,omitempty"`   // client ops, goroutine 1 (for unary: ignored)
+	Receiver []Op         `json:"receiver,omitempty"` // client ops, goroutine 2 (optional)
+	Handler  []Op         `json:"handler,omitempty"`
+	Resp     *tpb.Message `json:"-"` // unary response (nil allowed)
+	Ret      Ret          `json:"ret"`
+	NHdrOpt  int          `json:"n_header_opts,omitempty"`
+	NTrlOpt  int          `json:"n_trailer_opts,omitempty"`
+	PeerOpt  bool         `json:"peer_opt,omitempty"`
 	// ViaCtx: the handler sets and sends its metadata through the package-level functions of grpc
 	// (grpc.SetHeader / SendHeader / SetTrailer with its context) instead of the stream's methods
 	ViaCtx bool `json:"via_ctx,omitempty"`
 	// CallTimeout > 0: the caller's context carries a deadline that far away
-	CallTimeout time.Duration `json:"call_timeout,omitempty"`
+	CallTimeout  time.Duration     `json:"call_timeout,omitempty"`
 	ReuseDest    bool              `json:"reuse_dest,omitempty"`     // each side receives every message into one and the same message value
 	CredMD       map[string]string `json:"cred_md,omitempty"`        // metadata of per-RPC credentials attached to the call
 	NoAppendedMD bool              `json:"no_appended_md,omitempty"` // all request metadata goes through NewOutgoingContext
